@@ -230,7 +230,7 @@ def run() -> int:
         "normalising constructors reached through the parser (Distribution.safe, Product.safe, Sum.safe, __truediv__)",
     ]
     rep.bounds = {
-        "expressions": "built through public operators only: 594 single terms over systematically decorated variables (value mark x 0-2 subscripts of mixed polarity, on children and conditions, plain / population-tagged) alone, times P(B), and under P(B)/.; 30 leaves (joint/conditional, value marks, L2 and L3 subscripts, population tags incl. the target tag, Q-factors, One, Zero); all a*b, a/b, Sum[R](a); depth 3 = (depth-2) op leaf in both positions and sums (quick: every 25th, thorough: every 2nd); an operator-precedence family in both tiers (every grouping of three small operands by * and /, alone, as the body of a Sum, and next to a Sum); structural duplicates removed",
+        "expressions": "built through public operators only: 594 single terms over systematically decorated variables (value mark x 0-2 subscripts of mixed polarity, on children and conditions, plain / population-tagged) alone, times P(B), and under P(B)/.; 30 leaves (joint/conditional, value marks, L2 and L3 subscripts, population tags incl. the target tag, Q-factors, One, Zero); all a*b, a/b, Sum[R](a); depth 3 = (depth-2) op leaf in both positions and sums (quick: every 7th, thorough: every 2nd); an operator-precedence family in both tiers (every grouping of three small operands by * and /, alone, as the body of a Sum, and next to a Sum); structural duplicates removed",
         "distributions": "free positive joints per (population, intervention assignment), binary variables, Q-factors uninterpreted; cross-world terms cannot be evaluated in this world: for them only object equality after the round trip is checked (a shape-changing round trip of a cross-world term is reported as inconclusive)",
         "PYTHONHASHSEED": hashseed(),
     }
@@ -240,7 +240,7 @@ def run() -> int:
     ]
     rep.rule = "cases = expressions printed and re-parsed; non-trivial = the parsed object differs from the original so that a solver query was needed, or the expression is in the equality sub-family; distinct by printed form"
     depth = 3
-    items = [(k, to_json(e)) for k, e in build(depth, 25 if t == "quick" else 2, seed())]
+    items = [(k, to_json(e)) for k, e in build(depth, 7 if t == "quick" else 2, seed())]
     chunks = [items[i : i + 150] for i in range(0, len(items), 150)]
     for chunk, st, res in pmap(work, chunks):
         if st != "ok":
